@@ -165,12 +165,16 @@ fn g_params_random(src: &mut Src, obs: &mut Obs) -> CaseResult {
         2 => 13,
         3 => 64,
         // lists long enough for a counter of entries to leave 8 bits (still within one message)
-        4 => *src.pick(&[255usize, 256, 257, 300]),
+        4 => *src.pick(&[255usize, 256, 257, 258, 259, 300]),
         _ => src.range(0, 64),
     };
+    let all_supported = n >= 255 && src.bool();
     let list = Value::Array(
         (0..n)
             .map(|_| {
+                if all_supported {
+                    return Value::Map(vec![ks("alg", Value::int(if src.bool() { -7 } else { -8 })), ks("type", Value::text("public-key"))]);
+                }
                 let alg: i64 = match src.below(8) {
                     0 | 1 => -7,
                     2 | 3 => -8,
@@ -282,10 +286,28 @@ pub const G_WIDE_ALG: Gen = Gen { name: "c14_wide_alg", f: g_wide_alg };
 fn g_formats_random(src: &mut Src, obs: &mut Obs) -> CaseResult {
     let mut info = Info::default();
     let list = if src.chance(1, 8) {
-        // long lists: mostly known formats, a few unknown ones in between
-        let n = *src.pick(&[255usize, 256, 257, 300, 600]);
+        // long lists: mostly known formats with a few unknown ones in between, or the other way
+        // round (mostly / only unknown formats, a known one somewhere)
+        let n = *src.pick(&[255usize, 256, 257, 258, 300, 512, 600]);
         let unknown_every = *src.pick(&[0usize, 7, 100]);
-        Value::Array((0..n).map(|i| if unknown_every != 0 && i % unknown_every == 3 { Value::text("tpm") } else { Value::text(if (i / 2) % 2 == 0 { "packed" } else { "none" }) }).collect())
+        let mostly_unknown = src.chance(1, 3);
+        Value::Array(
+            (0..n)
+                .map(|i| {
+                    if mostly_unknown {
+                        if unknown_every != 0 && i % unknown_every == 3 {
+                            Value::text(if i % 2 == 0 { "packed" } else { "none" })
+                        } else {
+                            Value::text(["tpm", "apple", "android-key", "fido-u2f"][i % 4])
+                        }
+                    } else if unknown_every != 0 && i % unknown_every == 3 {
+                        Value::text("tpm")
+                    } else {
+                        Value::text(if (i / 2) % 2 == 0 { "packed" } else { "none" })
+                    }
+                })
+                .collect(),
+        )
     } else {
         gen_formats_list(src, &mut info, 40)
     };
